@@ -630,6 +630,8 @@ Goals(pre, ev, a, r) ==
                                                     /\ ~NEq(pre.recs[k].actual, post.recs[k].actual)}) >= 2, "slash_two_records") \cup
          G(ok /\ a.infr < pre.h /\ \E k \in DOMAIN pre.recs : pre.recs[k].o = a.o /\ pre.recs[k].start = a.infr
                                                     /\ ~NEq(pre.recs[k].actual, post.recs[k].actual), "slash_record_started_at_infraction_height") \cup
+         G(ok /\ a.infr < pre.h /\ \E k \in DOMAIN pre.recs : pre.recs[k].o = a.o /\ pre.recs[k].start > a.infr
+                                                    /\ ~NEq(pre.recs[k].actual, post.recs[k].actual), "slash_record_started_after_infraction_height") \cup
          G(ok /\ a.infr = pre.h, "slash_infraction_at_current_height") \cup
          G(<<a.o, a.id>> \in pre.sinfo, "slash_replay") \cup
          G(NGt(a.factor, PREC), "slash_factor_above_one") \cup
@@ -661,7 +663,7 @@ AllGoals ==
    "slash_partial", "slash_full", "slash_wipes_pool", "slash_hits_pending_record", "slash_record_to_zero",
    "slash_spares_older_record", "slash_multi_asset", "slash_pool_fully_unbonding_other_bonded", "slash_partial_pool_fully_unbonding_other_bonded",
    "slash_partial_hits_pending_record", "slash_caps_reduced_record", "slash_two_records", "slash_record_started_at_infraction_height",
-   "slash_infraction_at_current_height", "slash_replay", "slash_factor_above_one", "slash_zero_value_operator",
+   "slash_record_started_after_infraction_height", "slash_infraction_at_current_height", "slash_replay", "slash_factor_above_one", "slash_zero_value_operator",
    "nst_up", "nst_down_within_withdrawable", "nst_down_ends_inside_pending_records", "nst_down_reaches_shares",
    "nst_down_shares_two_operators", "nst_down_skips_zero_share_row",
    "msgdel_two_entries", "msgdel_second_entry_fails", "msgund_two_operators", "msgund_same_operator_twice", "msgund_second_entry_fails"}
